@@ -25,7 +25,8 @@ THEOREMS = [
 ]
 RULE = ("ordered inheritance DAGs of real InterfaceClass objects and class specifications "
         "(implementer on real classes); streams: pure interface DAGs, DAGs with Interface as an explicit "
-        "non-last base, mixed interface/class-spec DAGs, DAGs followed by 1-3 __bases__ reassignments; a case "
+        "non-last base, mixed interface/class-spec DAGs, DAGs followed by 1-3 __bases__ reassignments, DAGs in which "
+        "an equal-named twin replaces a base under all its children and is then rebased itself; a case "
         "is non-trivial when some specification has >= 2 bases; distinct = distinct (stream, node count, "
         "sorted base-count profile, inconsistent?, root fix-up needed?, phases) signature")
 TRUSTED_BASE = ["the numbering of specifications by the driver (creation order, closure under __bases__)",
@@ -168,6 +169,50 @@ def gen_rebase(rng, n):
     return nodes, ops
 
 
+def gen_twin(rng, n):
+    """rebasing history with a TWIN: a distinct interface with the __name__ and __module__ of node T (the "same"
+    interface after a module reload) replaces T as base of every child of T and is then rebased itself.
+    Interfaces compare and hash by (name, module), so any bookkeeping by equality instead of identity shows.
+    The shapes stay clear of finding F10 (C02): the twins are never both dependents of one base (T keeps its
+    bases or is emptied; the twin only gets bases T does not have) and never both ancestors of one node."""
+    nodes = gen_iface(rng, n)
+    graph = {i: list(nd["bases"]) for i, nd in enumerate(nodes, 1)}
+    with_children = [t for t in graph if any(t in bs for bs in graph.values())]
+    t = rng.choice(with_children or list(graph))
+    tw = n + 1
+    nodes.append({"kind": "iface", "bases": [], "twin_of": t})
+    graph[tw] = []
+    ops = []
+    for c in sorted(graph):
+        if t in graph[c]:
+            graph[c] = [tw if b == t else b for b in graph[c]]
+            ops.append([c, list(graph[c])])
+    if rng.random() < 0.5 and graph[t]:
+        graph[t] = []
+        ops.append([t, []])
+    for _ in range(rng.choice([1, 1, 2])):
+        bad = _descendants(graph, tw) | {t}
+        cand = [y for y in graph if y not in bad and y not in graph[t]]
+        k = max(1, _nbases(rng, len(cand))) if cand else 0
+        nb = _order(rng, rng.sample(cand, min(k, len(cand))), rng.random() < 0.6)
+        if rng.random() < 0.3 and 0 not in graph[t]:
+            nb.append(0)
+        if nb != graph[tw]:
+            graph[tw] = nb
+            ops.append([tw, nb])
+    # then something above the twin moves (never touching T or the twin)
+    above = [a for a in graph[tw] if a != 0]
+    if above and rng.random() < 0.6:
+        a = rng.choice(above)
+        bad = _descendants(graph, a) | {t, tw}
+        cand = [y for y in graph if y not in bad and y not in graph[t]]
+        nb = _order(rng, rng.sample(cand, min(_nbases(rng, len(cand)), len(cand))), rng.random() < 0.6)
+        if nb != graph[a]:
+            graph[a] = nb
+            ops.append([a, nb])
+    return nodes, ops
+
+
 FIXED = [
     # diamond
     {"stream": "fixed", "nodes": [{"kind": "iface", "bases": [0]}, {"kind": "iface", "bases": [1]},
@@ -191,6 +236,10 @@ FIXED = [
                                   {"kind": "iface", "bases": [1]}, {"kind": "iface", "bases": [2, 3]},
                                   {"kind": "iface", "bases": []}],
      "rebase": [[1, [5]], [4, [1, 2]], [4, [3, 2]]]},
+    # twin: IChild(IBase), IExtra; IBase' (same name and module) replaces IBase under IChild, then gets IExtra
+    {"stream": "fixed", "nodes": [{"kind": "iface", "bases": [0]}, {"kind": "iface", "bases": [1]},
+                                  {"kind": "iface", "bases": [0]}, {"kind": "iface", "bases": [], "twin_of": 1}],
+     "rebase": [[2, [4]], [4, [3]], [3, []]]},
 ]
 
 
@@ -200,7 +249,7 @@ def generate(run, tier):
     nmax = 9 if quick else 14
     total = 700 if quick else 5000
     cases = []          # the FIXED hierarchies are in corpus/C03/fixed.json (run first by the runner)
-    plan = [("iface", 0.40), ("rootexp", 0.15), ("mixed", 0.25), ("rebase", 0.20)]
+    plan = [("iface", 0.32), ("rootexp", 0.15), ("mixed", 0.25), ("rebase", 0.18), ("twin", 0.10)]
     for stream, frac in plan:
         for _ in range(int(total * frac)):
             n = rng.randint(2, nmax) if rng.random() < 0.8 else rng.randint(max(2, nmax - 3), nmax)
@@ -211,6 +260,9 @@ def generate(run, tier):
                 cases.append({"stream": stream, "nodes": gen_iface(rng, n, True, p_tidy)})
             elif stream == "mixed":
                 cases.append({"stream": stream, "nodes": gen_mixed(rng, n, p_tidy)})
+            elif stream == "twin":
+                nodes, ops = gen_twin(rng, min(n, nmax - 1))
+                cases.append({"stream": stream, "nodes": nodes, "rebase": ops})
             else:
                 nodes, ops = gen_rebase(rng, min(n, nmax - 1))
                 cases.append({"stream": stream, "nodes": nodes, "rebase": ops})
@@ -296,7 +348,9 @@ def replay_text(case, obs, mode):
              "from zope.interface.interface import InterfaceClass", "S = {0: Interface}; K = {}"]
     for i, nd in enumerate(case["nodes"], 1):
         if nd["kind"] == "iface":
-            lines.append("S[%d] = InterfaceClass('I%d', (%s), {})" % (i, i, "".join("S[%d], " % b for b in nd["bases"])))
+            lines.append("S[%d] = InterfaceClass('I%d', (%s), {})%s" % (
+                i, nd.get("twin_of", i), "".join("S[%d], " % b for b in nd["bases"]),
+                "   # twin: same __name__ and __module__ as S[%d]" % nd["twin_of"] if "twin_of" in nd else ""))
         else:
             lines.append("K[%d] = type('K%d', (%s) or (object,), {})" % (i, i, "".join("K[%d], " % c for c in nd["cbases"])))
             if nd["impl"]:
